@@ -60,8 +60,107 @@ type opJ struct {
 	Dep   int64  `json:"dep,omitempty"` // ns since the zero Time
 	DDep  int64  `json:"ddep,omitempty"`
 	N     int    `json:"n,omitempty"`
-	// feedback: marshalled RTCP packet
+	// feedback: marshalled RTCP packet, or (hand-written witnesses) its structured form
 	Raw string `json:"raw,omitempty"`
+	TW  *twJ   `json:"tw,omitempty"`
+	CF  *cfJ   `json:"cf,omitempty"`
+}
+
+// twJ is a TransportLayerCC written by hand: chunks are {"rl":[symbol,run]} or
+// {"sv":[symbols...]} (14 symbols = one-bit, 7 = two-bit); deltas in units of 250 us.
+type twJ struct {
+	Base   uint16               `json:"base"`
+	Count  uint16               `json:"count"`
+	Ref    uint32               `json:"ref"`
+	Chunks []map[string][]int64 `json:"chunks"`
+	Deltas []int64              `json:"deltas"`
+}
+
+// cfJ is a CCFeedbackReport written by hand: metric blocks are -1 (not
+// received) or ECN*8192+ATO.
+type cfJ struct {
+	TS     uint32 `json:"ts"`
+	Blocks []struct {
+		SSRC  uint32  `json:"ssrc"`
+		Begin uint16  `json:"begin"`
+		MBs   []int64 `json:"mbs"`
+	} `json:"blocks"`
+}
+
+func (o opJ) rawBytes() []byte {
+	switch {
+	case o.Raw != "":
+		raw, err := hex.DecodeString(o.Raw)
+		if err != nil {
+			panic(err)
+		}
+
+		return raw
+	case o.TW != nil:
+		fb := &rtcp.TransportLayerCC{SenderSSRC: 1, MediaSSRC: 2, BaseSequenceNumber: o.TW.Base,
+			PacketStatusCount: o.TW.Count, ReferenceTime: o.TW.Ref}
+		var syms []uint16
+		for _, c := range o.TW.Chunks {
+			if rl, ok := c["rl"]; ok {
+				fb.PacketChunks = append(fb.PacketChunks, &rtcp.RunLengthChunk{
+					Type: rtcp.TypeTCCRunLengthChunk, PacketStatusSymbol: uint16(rl[0]), RunLength: uint16(rl[1]), //nolint:gosec
+				})
+				for i := int64(0); i < rl[1] && len(syms) < int(o.TW.Count); i++ {
+					syms = append(syms, uint16(rl[0])) //nolint:gosec
+				}
+			} else {
+				sv := c["sv"]
+				l := make([]uint16, len(sv))
+				for i, x := range sv {
+					l[i] = uint16(x) //nolint:gosec
+				}
+				size := uint16(rtcp.TypeTCCSymbolSizeTwoBit)
+				if len(sv) == 14 {
+					size = rtcp.TypeTCCSymbolSizeOneBit
+				}
+				fb.PacketChunks = append(fb.PacketChunks, &rtcp.StatusVectorChunk{
+					Type: rtcp.TypeTCCStatusVectorChunk, SymbolSize: size, SymbolList: l,
+				})
+				syms = append(syms, l...)
+			}
+		}
+		k := 0
+		for _, sy := range syms {
+			if isDelta(sy) {
+				if k >= len(o.TW.Deltas) {
+					panic("witness has too few deltas")
+				}
+				fb.RecvDeltas = append(fb.RecvDeltas, &rtcp.RecvDelta{Type: sy, Delta: o.TW.Deltas[k] * 250})
+				k++
+			}
+		}
+		raw := marshalTWCC(fb)
+		if raw == nil {
+			panic("witness feedback is refused by the parser")
+		}
+
+		return raw
+	case o.CF != nil:
+		fb := &rtcp.CCFeedbackReport{SenderSSRC: 3, ReportTimestamp: o.CF.TS}
+		for _, b := range o.CF.Blocks {
+			rb := rtcp.CCFeedbackReportBlock{MediaSSRC: b.SSRC, BeginSequence: b.Begin}
+			for _, m := range b.MBs {
+				mb := rtcp.CCFeedbackMetricBlock{}
+				if m >= 0 {
+					mb = rtcp.CCFeedbackMetricBlock{Received: true, ECN: rtcp.ECN(m / 8192), ArrivalTimeOffset: uint16(m % 8192)} //nolint:gosec
+				}
+				rb.MetricBlocks = append(rb.MetricBlocks, mb)
+			}
+			fb.ReportBlocks = append(fb.ReportBlocks, rb)
+		}
+		raw := marshalCCFB(fb)
+		if raw == nil {
+			panic("witness feedback is refused by the parser")
+		}
+
+		return raw
+	}
+	panic("feedback op without packet")
 }
 
 type ackJ struct {
@@ -107,7 +206,11 @@ func header(o opJ, i int) rtp.Header {
 }
 
 func ackTerm(a ackJ) string {
-	return cq.T(cq.ZU(uint64(a.Seq)), cq.ZU(uint64(a.SSRC)), cq.Z(int64(a.Size)), zs(a.Dep), zs(a.Arr), cq.ZU(uint64(a.ECN)))
+	if a == (ackJ{Dep: "0", Arr: "0"}) {
+		return "(-1)"
+	}
+	return strings.Join([]string{cq.ZU(uint64(a.Seq)), cq.ZU(uint64(a.SSRC)), cq.Z(int64(a.Size)), zs(a.Dep), zs(a.Arr),
+		cq.ZU(uint64(a.ECN))}, "; ")
 }
 
 func toAckJ(as []verifhooks.Acknowledgment) []ackJ {
@@ -151,18 +254,21 @@ func twccTerm(fb *rtcp.TransportLayerCC) string {
 func blocksTerm(fb *rtcp.CCFeedbackReport) string {
 	bs := []string{}
 	for _, rb := range fb.ReportBlocks {
-		ms := make([]string, len(rb.MetricBlocks))
+		ms := make([]int64, len(rb.MetricBlocks))
 		for i, mb := range rb.MetricBlocks {
-			ms[i] = cq.T(cq.B(mb.Received), cq.ZU(uint64(mb.ECN)), cq.ZU(uint64(mb.ArrivalTimeOffset)))
+			ms[i] = -1
+			if mb.Received {
+				ms[i] = int64(mb.ECN)*8192 + int64(mb.ArrivalTimeOffset)
+			}
 		}
-		bs = append(bs, cq.T(cq.ZU(uint64(rb.MediaSSRC)), cq.ZU(uint64(rb.BeginSequence)), cq.L(ms)))
+		bs = append(bs, cq.T(cq.ZU(uint64(rb.MediaSSRC)), cq.ZU(uint64(rb.BeginSequence)), cq.LZ(ms)))
 	}
 
 	return cq.L(bs)
 }
 
 func ccfbTerm(fb *rtcp.CCFeedbackReport) string {
-	return cq.C("Op", cq.C("FbCcfb", cq.ZU(uint64(fb.ReportTimestamp)), blocksTerm(fb)))
+	return cq.C("CFb", cq.ZU(uint64(fb.ReportTimestamp)), blocksTerm(fb))
 }
 
 // parse returns the single feedback packet of a marshalled RTCP buffer (nil if the parser refuses it).
@@ -223,10 +329,7 @@ func runCC(ops []opJ) (c ccCase, panicked string) {
 				c.info["run>250"] = true
 			}
 		case "twcc", "ccfb":
-			raw, err := hex.DecodeString(o.Raw)
-			if err != nil {
-				panic(err)
-			}
+			raw := o.rawBytes()
 			idx++
 			switch fb := parse(raw).(type) {
 			case *rtcp.TransportLayerCC:
@@ -324,9 +427,9 @@ func isDelta(s uint16) bool {
 func handTWCC(r *rand.Rand, base uint16, want int, allowSym3 bool) (raw []byte, tags []string) {
 	for try := 0; try < 20; try++ {
 		fb := &rtcp.TransportLayerCC{SenderSSRC: 1, MediaSSRC: 2, BaseSequenceNumber: base,
-			ReferenceTime: uint32(r.Intn(1 << 24)), FbPktCount: uint8(r.Intn(256))} //nolint:gosec
-		if r.Intn(4) == 0 {
-			fb.ReferenceTime = uint32(r.Intn(3)) //nolint:gosec
+			ReferenceTime: uint32(r.Intn(100)), FbPktCount: uint8(r.Intn(256))} //nolint:gosec
+		if r.Intn(10) == 0 {
+			fb.ReferenceTime = uint32(r.Intn(1 << 24)) //nolint:gosec
 		}
 		tagset := map[string]bool{}
 		total := 0
@@ -429,7 +532,7 @@ func handTWCC(r *rand.Rand, base uint16, want int, allowSym3 bool) (raw []byte, 
 // recorderTWCC feeds an arrival history to the real twcc.Recorder.
 func recorderTWCC(r *rand.Rand, first uint16, n int) [][]byte {
 	rec := twcc.NewRecorder(7)
-	t := int64(r.Intn(1000000)) * 1000
+	t := int64(r.Intn(1000)) * 1000
 	for i := 0; i < n; i++ {
 		if r.Intn(5) == 0 { // lost
 			continue
@@ -534,8 +637,8 @@ func handCCFB(r *rand.Rand, streams []stream) []byte {
 
 func depStart(r *rand.Rand) int64 {
 	// departure clock: anywhere from "just after the zero Time" to 285 years later (time.Duration range)
-	if r.Intn(2) == 0 {
-		return int64(r.Intn(1000000000))
+	if r.Intn(10) != 0 {
+		return int64(r.Intn(1000))
 	}
 
 	return int64(9000000000)*1000000000 + int64(r.Intn(1000000000))
@@ -578,7 +681,7 @@ func genTWCC(r *rand.Rand) ([]opJ, []string) {
 				o.Ext = []int{0, 2}[r.Intn(2)] // missing / unparsable extension
 				tags["sent-error"] = true
 			}
-			dep += int64(r.Intn(2000000))
+			dep += int64(r.Intn(2000))
 			ops = append(ops, o)
 		}
 		if n > 80 {
@@ -586,7 +689,7 @@ func genTWCC(r *rand.Rand) ([]opJ, []string) {
 		}
 	} else {
 		ops = append(ops, opJ{K: "run", ExtID: ext, Ext: 1, Twcc: first, SSRC: 77, Seq: uint16(r.Intn(65536)), //nolint:gosec
-			CSRC: r.Intn(2), Size: 1 + r.Intn(1400), Dep: dep, DDep: int64(1 + r.Intn(2000000)), N: n})
+			CSRC: r.Intn(2), Size: 1 + r.Intn(1400), Dep: dep, DDep: int64(1 + r.Intn(2000)), N: n})
 	}
 	if r.Intn(6) == 0 { // re-send of an earlier transport sequence number (refreshes its LRU position)
 		ops = append(ops, opJ{K: "sent", ExtID: ext, Ext: 1, Twcc: first + uint16(r.Intn(n)), SSRC: 77, //nolint:gosec
@@ -631,7 +734,7 @@ func genTWCC(r *rand.Rand) ([]opJ, []string) {
 		if r.Intn(4) == 0 { // more sends between feedback packets
 			k := 1 + r.Intn(30)
 			ops = append(ops, opJ{K: "run", ExtID: ext, Ext: 1, Twcc: first + uint16(n), SSRC: 77, //nolint:gosec
-				Seq: uint16(r.Intn(65536)), Size: 1 + r.Intn(1400), Dep: dep + 1000000000, DDep: 1000, N: k}) //nolint:gosec
+				Seq: uint16(r.Intn(65536)), Size: 1 + r.Intn(1400), Dep: dep + 1000000, DDep: 10, N: k}) //nolint:gosec
 			n += k
 		}
 	}
@@ -665,8 +768,8 @@ func genCCFB(r *rand.Rand) ([]opJ, []string) {
 		}
 		streams = append(streams, st)
 		ops = append(ops, opJ{K: "run", SSRC: st.ssrc, Seq: st.first, CSRC: r.Intn(2), Size: 1 + r.Intn(1400),
-			Dep: dep, DDep: int64(1 + r.Intn(2000000)), N: st.n})
-		dep += 3000000000
+			Dep: dep, DDep: int64(1 + r.Intn(2000)), N: st.n})
+		dep += 3000000
 	}
 	if r.Intn(4) == 0 { // a TWCC-keyed stream in the same adapter (key ssrc 0)
 		ops = append(ops, opJ{K: "run", ExtID: 3, Ext: 1, Twcc: streams[0].first, SSRC: 5, Seq: 1, Size: 100, Dep: dep, DDep: 7, N: 10})
